@@ -174,4 +174,7 @@ def run(repo, tier):
     from .common import run_unit_last
     run_unit_last(repo, res)
     res.floor('UNIT-LAST', 30)
+    from .common import run_cast_to_data_dtype
+    run_cast_to_data_dtype(repo, res, {m for m in repo.modules if '.tests' not in m and not m.startswith('photutils.segmentation.')
+                                       and 'extern' not in m} | {'photutils.segmentation.catalog'})
     return res
